@@ -260,6 +260,10 @@ def jobs(tier, seed):
             J.append(dict(harness='h_verbatim', params=dict(pre=END[:k], nsym_before=1, nsym_after=1), label='verbatim sym+prefix+sym %d' % k, no_twin=True))
     J.append(dict(harness='h_verbatim', params=dict(pre='a%b\n\n  c``--', nsym_before=1, nsym_after=1), label='verbatim comment/ligature body', no_twin=True))
     J.append(dict(harness='h_verbatim', params=dict(pre='\\en', nsym_before=0, nsym_after=1, star=True), label='verbatim* prefix+sym', no_twin=True))
+    # the command form of the end marker (\endverbatim) and other near-markers are content inside \begin{verbatim}
+    for near in ('\\endverbatim ', '\\endverbatim', '\\end{verbatim*}', '\\end {verbatim}', '\\END{verbatim}', '\\end{verbatim }'):
+        J.append(dict(harness='h_verbatim', params=dict(pre=near, nsym_before=1, nsym_after=1), label='verbatim near-marker %r' % near, no_twin=True))
+    J.append(dict(harness='h_verbatim', params=dict(pre='\\endverbatim* x', nsym_before=0, nsym_after=1, star=True), label='verbatim* command-form marker', no_twin=True))
     for star in (False, True):
         J.append(dict(harness='h_verb', params=dict(nbody=2 if q else 3, star=star), label='verb star=%s' % star, no_twin=star))
         J.append(dict(harness='h_verb', params=dict(nbody=2 if q else 3, star=star, indoc=True), label='verb star=%s in a document' % star, no_twin=True))
